@@ -135,12 +135,16 @@ sap_packet_get_auth_data(uint8_t *pkt) {
 static inline uint8_t *
 sap_packet_get_payload(uint8_t *pkt, size_t pkt_size) {
 	uint8_t *ret, *tm;
+	size_t off;
 
-	if (NULL == pkt) /* No packet. */
+	if (NULL == pkt || sizeof(sap_hdr_t) > pkt_size) /* No packet. */
 		return (NULL);
-	ret = (pkt + sizeof(sap_hdr_t) +
+	off = (sizeof(sap_hdr_t) +
 	    ((0 == ((sap_hdr_p)pkt)->flags.bits.a) ? 4 : 16) +
 	    ((sap_hdr_p)pkt)->auth_len);
+	if (off > pkt_size) /* Truncated packet. */
+		return (NULL);
+	ret = (pkt + off);
 	//if (0 == memcmp("application/sdp", ret, 16))
 	//	ret += 16; /* Text, including null char. */
 	tm = mem_chr_ptr(ret, pkt, pkt_size, 0);
